@@ -164,6 +164,9 @@ impl MetadataClient for SpyMeta {
     async fn has_active_split(&self) -> CsResult<bool> {
         self.inner.has_active_split().await
     }
+    async fn pending_split_targets(&self) -> CsResult<Vec<String>> {
+        self.inner.pending_split_targets().await
+    }
 }
 
 // ------------------------------------------------------------------------------------------------
